@@ -44,6 +44,20 @@ def write_coqproject() -> bool:
     return False
 
 
+def regenerate_all():
+    """Run every source-derived generator: harness/extract_*.py, each exposing regenerate() -> (ok, msg) and
+    writing coq/Gen/<something>.v from /repo's current source.  Fail closed."""
+    import importlib
+    hd = os.path.join(VERIF, "harness")
+    for fn in sorted(os.listdir(hd)):
+        if fn.startswith("extract_") and fn.endswith(".py"):
+            mod = importlib.import_module("harness." + fn[:-3])
+            ok, msg = mod.regenerate()
+            if not ok:
+                return False, f"source extractor {fn}: {msg}"
+    return True, "ok"
+
+
 def sub_env(extra=None):
     env = dict(os.environ)
     env["PYTHONPATH"] = REPO + os.pathsep + VERIF
